@@ -39,7 +39,7 @@ ASSUMPTIONS = ['only strings are fed (the pipeline feeds internal_hash hex strin
                '(relative std of the linear-counting estimate is <= 0.3 % in this range, so 2 % is > 6 sigma)',
                'value families are injective by construction, so the model distinct count is the number of fresh indices']
 
-FAMILIES = ['hex', 'v', 'uni', 'dec8', 'hexseq', 'sha64', 'nl', 'cyr', 'nul', 'rawdigest']
+FAMILIES = ['hex', 'v', 'uni', 'dec8', 'hexseq', 'sha64', 'nl', 'cyr', 'nul', 'rawdigest', 'longmid']
 _M32 = 0xFFFFFFFF
 CHUNK = 1 << 16
 SHUFFLE_MAX_ADDS = 3 * B      # shuffle segments re-feed everything: skipped (and counted) beyond this many adds
@@ -66,6 +66,9 @@ def make_values(family, salt, idx):
         return [hashlib.sha256(b'%d' % v).hexdigest() for v in x.tolist()]
     if family == 'uni':
         return ['ключ%d値é' % v for v in x.tolist()]
+    if family == 'longmid':    # long values (> 256 bytes) that differ only in the middle: a fixed-width id between a common head and a common tail
+        head, tail = 'https://www.example.org/landing/' + 'h' * 120 + '/item/', '?utm_source=newsletter&utm_campaign=' + 't' * 130
+        return ['%s%010d%s' % (head, v, tail) for v in x.tolist()]
     if family == 'nul':        # C-string / fixed-width style fields: the value ends in NUL characters (part of the value)
         return ['id%d\x00' % v if v % 3 else 'id%d\x00\x00' % v for v in x.tolist()]
     if family == 'rawdigest':  # raw 4-byte binary digests (bytes objects, mostly not valid UTF-8); the mixing below is a bijection on 32 bits
